@@ -1095,6 +1095,54 @@ STR_START_KINDS = ('parsed-str', 'iter', 'lazy')
 SPECIAL_CYCLES_B = tuple(c for c in SPECIAL_CYCLES if c not in STR_CYCLES)
 
 
+# round 12 (abandoned iterations): 50% of the minimum over quick seeds 0-3; the thorough workload (full enumeration,
+# 26000 histories) is a superset in size of the quick one for every counter, so the same values serve as its floors
+PITER_FLOORS = {'piter:early:dropped': 662,
+ 'piter:early:kept': 492,
+ 'piter:first-iteration-since:after': 42,
+ 'piter:first-iteration-since:before': 43,
+ 'piter:first-iteration-since:construction': 107,
+ 'piter:first-iteration-since:copy': 50,
+ 'piter:first-iteration-since:cycle': 39,
+ 'piter:first-iteration-since:del': 65,
+ 'piter:first-iteration-since:first': 66,
+ 'piter:first-iteration-since:full-observation': 945,
+ 'piter:first-iteration-since:last': 63,
+ 'piter:first-iteration-since:pop': 35,
+ 'piter:first-iteration-since:popitem': 30,
+ 'piter:first-iteration-since:set': 235,
+ 'piter:first-iteration-since:setdefault': 40,
+ 'piter:first-iteration-since:sort': 49,
+ 'piter:first-iteration-since:update': 37,
+ 'piter:late:dropped': 814,
+ 'piter:late:kept': 126,
+ 'piter:observation-left-to-the-pseudo-op': 1057,
+ 'piter:resumed': 77,
+ 'piter:steps:0': 299,
+ 'piter:steps:all': 256,
+ 'piter:steps:past-the-end': 318,
+ 'piter:steps:some': 1216,
+ 'piter:view:any': 131,
+ 'piter:view:copy-iter': 133,
+ 'piter:view:enumerate-break': 135,
+ 'piter:view:for-break': 142,
+ 'piter:view:in-iter': 86,
+ 'piter:view:islice': 127,
+ 'piter:view:items': 135,
+ 'piter:view:iter': 140,
+ 'piter:view:keys': 132,
+ 'piter:view:next': 132,
+ 'piter:view:resume': 77,
+ 'piter:view:two': 130,
+ 'piter:view:two-views': 137,
+ 'piter:view:unpack': 130,
+ 'piter:view:values': 138,
+ 'piter:view:zip': 138}
+PITER_MONITOR_FLOORS = {'M.piter': 2110, 'M.piter.after': 2147, 'M.piter.first-iteration': 1165, 'M.piter.prefix': 1881}
+for _tier in FLOORS:
+    FLOORS[_tier]['counters'].update(PITER_FLOORS)
+    FLOORS[_tier]['monitors'].update(PITER_MONITOR_FLOORS)
+
 for _tier in FLOORS:
     for _k in STORED_KEY_NAMES:
         FLOORS[_tier]['counters']['sortkey:%s' % _k] = PER_SORTKEY_FLOOR[_tier]
@@ -2190,7 +2238,8 @@ PITER_ENUM_NAMES = (('Package', 'PACKAGE'), ('version', 'Version'), ('Architectu
 
 def piter_enum_cases(ctx):
     """every start kind x every kind of operation the abandoned iteration comes right after x every view (k rotating in
-    quick, 0..2 in thorough; keep alternating), followed by a value overwrite and a second abandoned iteration"""
+    quick, 0..2 in thorough; keep alternating), followed by a second abandoned iteration (the kept iterator advanced one
+    more step where there is one) and a value overwrite"""
     idx = 0
     names = PITER_ENUM_NAMES
     for si, (cls, skind) in enumerate(PITER_ENUM_STARTS):
@@ -2229,8 +2278,9 @@ def piter_enum_cases(ctx):
                         pre = [op for op in pre if op[0] != 'cycle']
                     ops = [list(op) for op in pre]
                     ops.append(['partial-iter', view, k, keep, 1])
+                    ops.append(['partial-iter', 'resume' if keep and view in ('iter', 'keys', 'items', 'values') else
+                                PITER_VIEWS[(idx + 3) % 14], 1, 0, 0])
                     ops.append(['set', 'PACKAGE', 'w0'])                     # value overwrite: no structural change
-                    ops.append(['partial-iter', 'resume' if keep else PITER_VIEWS[(idx + 3) % 14], 1, 0, 0])
                     yield {'cls': cls, 'start': start, 'ops': ops, 'enum': True, 'flavour': 'partial-iter-enum'}
 
 
